@@ -163,20 +163,19 @@ func (b *BitStorage) ReadFrom(r io.Reader) (int64, error) {
 	if Len < 0 {
 		return n, errors.New("level: negative data array length")
 	}
-	if cap(b.data) >= int(Len) {
-		b.data = b.data[:Len]
-	} else {
-		b.data = make([]uint64, Len)
-	}
+	// the length comes from the peer: the array grows as the longs arrive
+	data := b.data[:0]
 	var v pk.Long
-	for i := range b.data {
+	for i := 0; i < int(Len); i++ {
 		nn, err := v.ReadFrom(r)
 		n += nn
 		if err != nil {
+			b.data = data
 			return n, err
 		}
-		b.data[i] = uint64(v)
+		data = append(data, uint64(v))
 	}
+	b.data = data
 	return n, nil
 }
 
